@@ -611,13 +611,23 @@ func c14semver(c *Ctx) {
 
 func init() {
 	register("C14", "exploration", func(c *Ctx) {
-		c.Rule = "random requirement graphs (2-8 modules x 2-4 versions incl. pre-releases; diamonds, cycles, modules requiring older versions of their dependants); per graph BuildList under 5+ (permutation of requirement lists x latency assignment: none / Gosched rounds / sleeps) runs, Req (sufficiency+minimality), Upgrade, UpgradeAll, Downgrade invariants, Graph.Require in random order; instrumented Required callbacks log call events, duplicates and concurrency. Oracle: sequential closure fixpoint. Plus random valid/near-valid semver triples against an independent SemVer 2.0 model and the order axioms. Non-trivial graph = more than 3 nodes with requirements or more than one distinct callback order observed; non-trivial semver case = distinct pair of valid versions."
+		c.Rule = "module graphs built by modrequirements.NewRequirements(...).Graph from PRNG root lists (1-6 module versions, often two versions of the same module) over an in-memory registry: the build list must hold, per module, the maximum of the versions named by the listed roots and by the explicit requirements of every listed root (also of a root that a higher root of the same module supersedes), nothing else, and the requirements of every listed root must be loaded; random requirement graphs (2-8 modules x 2-4 versions incl. pre-releases; diamonds, cycles, modules requiring older versions of their dependants); per graph BuildList under 5+ (permutation of requirement lists x latency assignment: none / Gosched rounds / sleeps) runs, Req (sufficiency+minimality), Upgrade, UpgradeAll, Downgrade invariants, Graph.Require in random order; instrumented Required callbacks log call events, duplicates and concurrency. Oracle: sequential closure fixpoint. Plus random valid/near-valid semver triples against an independent SemVer 2.0 model and the order axioms. Non-trivial graph = more than 3 nodes with requirements or more than one distinct callback order observed; non-trivial semver case = distinct pair of valid versions."
 		c.Assume = []string{"SemVer model = semver.org 2.0.0 §2,§9,§10,§11 with leading v and vMAJOR / vMAJOR.MINOR shorthands; invalid versions compare below valid ones (package doc)", "Downgrade is checked through invariants of Algorithm 4, not against a full oracle"}
 		if c.Replay != nil {
 			c14replay(c)
 			return
 		}
 		c14semver(c)
+		// the module graph cue builds from a root list (modrequirements): also with several versions of one root
+		{
+			n := c.N(3000, 60000)
+			c.Par(16, func(b int) {
+				r := c.RNG(fmt.Sprintf("modreq-%d", b))
+				for i := b; i < n; i += 16 {
+					c14reqCase(c, r)
+				}
+			})
+		}
 		nGraphs := c.N(600, 20000)
 		runs := c.N(6, 9)
 		orders := map[string]struct{}{}
